@@ -18,6 +18,8 @@ pub struct Outcome {
 /// Runs `target` for `seconds` from the given seed inputs (fork mode over `ctx.threads` processes).
 /// A missing toolchain or a failing build is reported in `note` (the deterministic part of the check stands on its own).
 pub fn campaign(ctx: &Ctx, target: &str, seconds: u64, seeds: &[Vec<u8>], max_len: usize) -> Outcome {
+	// VERIF_FUZZ_SECONDS lengthens (or shortens) every campaign, e.g. for a long background run
+	let seconds = std::env::var("VERIF_FUZZ_SECONDS").ok().and_then(|s| s.trim().parse().ok()).unwrap_or(seconds);
 	let mut out = Outcome { executions: 0, artifacts: Vec::new(), note: None, seconds };
 	let fuzz_dir = Path::new(VERIF).join("harness").join("fuzz");
 	let corpus = Scratch::new("fuzzcorpus");
